@@ -118,10 +118,74 @@ func (c *Ctx) newBoolVar(tag string) *Term {
 	return v
 }
 
+// refineFromCond narrows the static interval of variables constrained by a condition that has just
+// become part of the path condition. Variables are per-path objects, so this is sound for every
+// later use on this path (terms built earlier simply keep their looser derived intervals).
+func refineFromCond(t *Term, positive bool) {
+	switch t.Op {
+	case OpNot:
+		refineFromCond(t.Args[0], !positive)
+	case OpAnd:
+		if positive {
+			refineFromCond(t.Args[0], true)
+			refineFromCond(t.Args[1], true)
+		}
+	case OpOr:
+		if !positive {
+			refineFromCond(t.Args[0], false)
+			refineFromCond(t.Args[1], false)
+		}
+	case OpLt, OpLe, OpEq:
+		a, b := t.Args[0], t.Args[1]
+		setHi := func(v *Term, h *big.Int) {
+			if v.Hi == nil || h.Cmp(v.Hi) < 0 {
+				v.Hi = h
+			}
+		}
+		setLo := func(v *Term, l *big.Int) {
+			if v.Lo == nil || l.Cmp(v.Lo) > 0 {
+				v.Lo = l
+			}
+		}
+		one := bigOne
+		switch {
+		case a.Op == OpVar && b.Op == OpConst:
+			switch {
+			case t.Op == OpEq && positive:
+				setLo(a, b.Val)
+				setHi(a, b.Val)
+			case t.Op == OpLt && positive:
+				setHi(a, new(big.Int).Sub(b.Val, one))
+			case t.Op == OpLt && !positive:
+				setLo(a, b.Val)
+			case t.Op == OpLe && positive:
+				setHi(a, b.Val)
+			case t.Op == OpLe && !positive:
+				setLo(a, new(big.Int).Add(b.Val, one))
+			}
+		case b.Op == OpVar && a.Op == OpConst:
+			switch {
+			case t.Op == OpEq && positive:
+				setLo(b, a.Val)
+				setHi(b, a.Val)
+			case t.Op == OpLt && positive: // a < b
+				setLo(b, new(big.Int).Add(a.Val, one))
+			case t.Op == OpLt && !positive: // a >= b
+				setHi(b, a.Val)
+			case t.Op == OpLe && positive: // a <= b
+				setLo(b, a.Val)
+			case t.Op == OpLe && !positive: // a > b
+				setHi(b, new(big.Int).Sub(a.Val, one))
+			}
+		}
+	}
+}
+
 func (c *Ctx) addPC(t *Term) {
 	if t == TTrue {
 		return
 	}
+	refineFromCond(t, true)
 	c.pc = append(c.pc, t)
 	if c.solver != nil {
 		c.solver.Assert(t)
